@@ -255,6 +255,17 @@ def rule_R10(text, fired):
             raise Refuse(f'R10: pointer parameter {name} is used in a way the rule does not cover')
         _count(fired, 'R10')
     text = text.replace(params, new_params, 1)
+    # a returned C string: `-> *const c_char` becomes `-> Option<CTextOut>` (null = None); CString::new(bytes) is the model
+    # constructor cstring_new(bytes), `.into_raw()` hands the string over (Some), std::ptr::null() is None
+    if re.search(r'->\s*\*\s*const\s+c_char\b', text) and 'CString::new(' in text:
+        text, n = re.subn(r'->\s*\*\s*const\s+c_char\b', '-> Option<CTextOut>', text)
+        _count(fired, 'R10', n)
+        text, n = re.subn(r'\bCString::new\(', 'cstring_new(', text)
+        _count(fired, 'R10', n)
+        text, n = re.subn(r'\b(\w+)\.into_raw\(\)', r'Some(\1)', text)
+        _count(fired, 'R10', n)
+        text, n = re.subn(r'\bstd::ptr::null\(\)', 'None', text)
+        _count(fired, 'R10', n)
     text, n = re.subn(r'\b(?:unsafe\s+)?extern\s+"C"\s+fn\b', 'fn', text)
     _count(fired, 'R10', n)
     return text
